@@ -89,7 +89,8 @@ def deleteChannel (m : Mod) (rows : List Nat) (c : ChanDesc) : Except String Mod
     let shared := c.keys.filter (fun key => others.any (fun o => o.keys.contains key))
     let dropped := c.keys.filter (fun key => !(shared.contains key))
     -- recordings and clamps of states that no longer exist go with the channel (fix N13)
-    let goneStates := (dropped.filter (fun key => c.states.any (·.1 == key)))
+    -- (a state of the deleted channel is gone unless another channel has a STATE of that name; a parameter of that name does not keep it)
+    let goneStates := ((c.states.map (·.1)).filter (fun key => !(others.any (fun o => o.states.any (·.1 == key)))))
       ++ (if others.any (·.current == c.current) then [] else [c.current])
     .ok { m with
       chans := others,
